@@ -205,6 +205,9 @@ def relation_rank(r):
     return (len(rows), sum(1 for x in rows for v in x.values() if v is None), r)
 
 
+CANONICAL_RELATIONS = sorted((r for r in ALL_RELATIONS if len(rel_rows(r)) <= 1), key=relation_rank)
+
+
 # ---------------------------------------------------------------------------------------------------
 # judging one execution against the reference evaluator
 # ---------------------------------------------------------------------------------------------------
@@ -343,6 +346,12 @@ def report(rec, subject, chain, failing_rels, packed_rels, first_dev, first_deta
         if d2:
             shape, dev, detail, script, dss = c, d2, det2, s2, dss2
             break
+    if len(rels) == 1 and not packed and len(rel_rows(rels[0])) > 1:
+        for r in CANONICAL_RELATIONS:                       # 5. a canonical smallest input on which that sub-chain fails
+            d2, det2, s2, dss2 = check_single(subject, shape, [r], False)
+            if d2:
+                rels, dev, detail, script, dss = [r], d2, det2, s2, dss2
+                break
     inputclass = relation_class(rels[0]) if len(rels) == 1 else "packed-relations"
     if packed and len(rels) == 1:
         inputclass += "/with-extra-identifier"
